@@ -329,36 +329,55 @@ func (f *Func) errHandled(body *Body, call *ast.CallExpr) (bool, string) {
 		return false, "call not located"
 	}
 	// on every path from the call, the next thing that happens to obj is a nil test whose non-nil edge returns
+	// (a copy into another variable — `e2 = err`, `a, b, e2 = x, y, err` — hands the duty to that variable)
 	tested := false
-	leak, _ := g.Forward(&loc, nil, func(n ast.Node, at Loc) Verdict {
-		if e, isExpr := n.(ast.Expr); isExpr {
-			if o, _, isErr := f.errTest(e); isErr && o == obj {
-				tested = true
-				return Cut
-			}
-		}
-		if r, isRet := n.(*ast.ReturnStmt); isRet {
-			for _, e := range r.Results {
-				if id, ok := ast.Unparen(e).(*ast.Ident); ok && f.ObjOf(id) == obj {
+	var track func(from Loc, obj types.Object, depth int) bool
+	track = func(from Loc, obj types.Object, depth int) bool {
+		leak, _ := g.Forward(&from, nil, func(n ast.Node, at Loc) Verdict {
+			if e, isExpr := n.(ast.Expr); isExpr {
+				if o, _, isErr := f.errTest(e); isErr && o == obj {
 					tested = true
 					return Cut
 				}
 			}
-			if !g.ReturnMayBeNil(r) {
-				return Cut // another error is reported on this path: the operation is not acknowledged
+			if r, isRet := n.(*ast.ReturnStmt); isRet {
+				for _, e := range r.Results {
+					if id, ok := ast.Unparen(e).(*ast.Ident); ok && f.ObjOf(id) == obj {
+						tested = true
+						return Cut
+					}
+				}
+				if !g.ReturnMayBeNil(r) {
+					return Cut // another error is reported on this path: the operation is not acknowledged
+				}
+				return Hit
 			}
-			return Hit
-		}
-		// reassigned before being looked at?
-		if as, isAs := n.(*ast.AssignStmt); isAs {
-			for _, l := range as.Lhs {
-				if id, ok := l.(*ast.Ident); ok && f.ObjOf(id) == obj {
-					return Hit
+			if as, isAs := n.(*ast.AssignStmt); isAs {
+				// copied out?
+				if len(as.Lhs) == len(as.Rhs) && depth < 4 {
+					for i, r := range as.Rhs {
+						if id, ok := ast.Unparen(r).(*ast.Ident); ok && f.ObjOf(id) == obj {
+							if l, ok := as.Lhs[i].(*ast.Ident); ok && l.Name != "_" && f.ObjOf(l) != nil && f.ObjOf(l) != obj {
+								if track(at, f.ObjOf(l), depth+1) {
+									return Hit
+								}
+								return Cut
+							}
+						}
+					}
+				}
+				// reassigned before being looked at?
+				for _, l := range as.Lhs {
+					if id, ok := l.(*ast.Ident); ok && f.ObjOf(id) == obj {
+						return Hit
+					}
 				}
 			}
-		}
-		return Go
-	}, func(*cfg.Block) Verdict { return Hit })
+			return Go
+		}, func(*cfg.Block) Verdict { return Hit })
+		return leak
+	}
+	leak := track(loc, obj, 0)
 	if leak || !tested {
 		return false, "error value can reach a return or be overwritten without being tested"
 	}
